@@ -419,6 +419,10 @@ func (cd *cmdDispatcher) prepare(cs *clientState, input respValue) (ctx *cmdCont
 func (cd *cmdDispatcher) dispatch(cs *clientState, input respValue) (output respValue) {
 	ctx, response := cd.prepare(cs, input)
 	if response != nil {
+		if _, rejected := response.(respErrorString); rejected && cs.cmdQueue != nil {
+			// rejected while queueing: the transaction can no longer execute
+			cs.cmdQueueAborted = true
+		}
 		output.data = response
 		return
 	}
